@@ -2,7 +2,7 @@
 From Cctp Require Import Lib.Bytes Lib.SMap Lib.Text Lib.Bech32 Lib.Hex Lib.Keccak.
 From Cctp Require Import Model.Codec Model.State Model.Attest Model.Ledger Model.Handlers Model.Chain.
 From Cctp Require Import Proofs.MonadFacts Proofs.FlowFacts Proofs.CallFacts Proofs.MoneyFacts Proofs.CodecFacts Proofs.KeccakFacts.
-From Cctp Require Import Spec.Roles Proofs.LedgerFacts.
+From Cctp Require Import Spec.Roles Proofs.LedgerFacts Proofs.AdminFacts.
 
 (* [caller] is [] for the plain variant *)
 Definition is_deposit_of (t : tx) from amount dest mr bt caller : Prop :=
@@ -144,6 +144,45 @@ Fixpoint total_deposited (e : env) (c : chain) (h : list step) : Z :=
 Theorem C05_total_burnt : forall e h c, total_burnt e c h = total_deposited e c h.
 Proof. intros e h. induction h as [|s h IH]; intros c; cbn; auto. now rewrite C05_step_burnt, IH. Qed.
 
+(* No user-chosen field makes the module speak: if a successful transaction submitted by a 20-byte account other
+   than the module account emits a message whose sender field is the module's padded address, then the transaction
+   is a deposit (which the theorems above tie to an equal burn) or a replace-deposit-for-burn (which re-emits a
+   module-sent, attested burn message whose depositor is the submitter - C09). *)
+Theorem C05_module_speaks_only_through_deposits : forall e c plan t addr bz,
+  is_ok (deliver e c plan t) = true -> In (EvMessageSent bz) (r_events (deliver e c plan t)) ->
+  slice 20 52 bz = copy12 (module_addr e) ->
+  acc_address (hrp e) (submitter t) = Some addr -> length addr = 20 -> length (module_addr e) = 20 -> addr <> module_addr e ->
+  is_deposit t = true \/ exists from orig att caller rcp, t = ReplaceDepositForBurn from orig att caller rcp.
+Proof.
+  intros e c plan t addr bz O I S A La Lm NE.
+  destruct t; try (left; reflexivity); try (right; eauto 10; fail); exfalso; cbn [submitter] in A.
+  all: try (assert (is_money _ = false) as M by reflexivity).
+  (* transactions that emit no MessageSent at all *)
+  all: try (apply ok_inv in O as (a&h'&H&E); rewrite E in I; cbn [r_events handler] in I, H;
+            unfold_admin_in H; inv_ok H; try (injection H as _ <-); cbn [h_ev start app] in I;
+            repeat (destruct I as [I|I]; try discriminate I); contradiction).
+  - (* receive *)
+    destruct (receive_ok_effects e c plan from message attestation O) as (m&D&H). cbv zeta in H.
+    destruct (to_module e m).
+    + destruct H as (b&p&to&_&_&_&_&Ev&_). rewrite Ev in I. repeat (destruct I as [I|I]; try discriminate I). contradiction.
+    + destruct H as (_&_&Ev). rewrite Ev in I. repeat (destruct I as [I|I]; try discriminate I). contradiction.
+  - (* replace message: the sender is the submitter's own padded address *)
+    destruct (C05_replacement_keeps_sender_and_checks_it e c plan from orig att new_body new_caller O) as (m&addr'&bz'&D&A'&Sd&_&Ev&En).
+    rewrite Ev in I. destruct I as [I|[]]. injection I as <-.
+    apply encode_sender_field in En. cbn [m_sender msg_of] in En. rewrite En, Sd in S.
+    assert (addr' = addr) by congruence. subst. apply C05_padded_sender_injective in S; auto.
+  - (* send *)
+    destruct (C05_sender_of_sends_is_submitter e c plan _ from dest recipient body (zeros 32) (or_introl (conj eq_refl eq_refl)) O) as (addr'&bz'&A'&Ev&En).
+    rewrite Ev in I. destruct I as [I|[]]. injection I as <-.
+    apply encode_sender_field in En. cbn [m_sender msg_of] in En. rewrite En in S.
+    assert (addr' = addr) by congruence. subst. apply C05_padded_sender_injective in S; auto.
+  - (* send with caller *)
+    destruct (C05_sender_of_sends_is_submitter e c plan _ from dest recipient body caller (or_intror eq_refl) O) as (addr'&bz'&A'&Ev&En).
+    rewrite Ev in I. destruct I as [I|[]]. injection I as <-.
+    apply encode_sender_field in En. cbn [m_sender msg_of] in En. rewrite En in S.
+    assert (addr' = addr) by congruence. subst. apply C05_padded_sender_injective in S; auto.
+Qed.
+
 Print Assumptions C05_deposit_effects.
 Print Assumptions C05_only_the_depositor_is_debited.
 Print Assumptions C05_step_burnt.
@@ -153,3 +192,4 @@ Print Assumptions C05_only_deposits_debit_and_burn.
 Print Assumptions C05_sender_of_sends_is_submitter.
 Print Assumptions C05_replacement_keeps_sender_and_checks_it.
 Print Assumptions C05_padded_sender_injective.
+Print Assumptions C05_module_speaks_only_through_deposits.
